@@ -2243,7 +2243,12 @@ def _build_fn(sf: SourceFile, item: Item, impl, ex: Extract, props, rep, unit, a
         # every line of the hint carries the index of its site, so that a failing hint line can be traced back (tools/run.py
         # re-verifies the unit without a hint that fails on the tree under test: a failed hint is otherwise ASSUMED by the
         # verifier for the rest of the function and can hide the failure of the code's own obligation)
-        text = "\n".join((ln_ + f" /*@site:{len(HINT_SITES) - 1}*/") if ln_.strip() else ln_ for ln_ in text.split("\n"))
+        def _site_mark(ln_, n_=len(HINT_SITES) - 1):
+            if not ln_.strip():
+                return ln_
+            k_ = ln_.rfind("// @")          # a property label stays the last thing on its line
+            return (ln_[:k_] + f"/*@site:{n_}*/ " + ln_[k_:]) if k_ >= 0 else (ln_ + f" /*@site:{n_}*/")
+        text = "\n".join(_site_mark(ln_) for ln_ in text.split("\n"))
         if ABLATE_HINT[0] is not None and (ABLATE_HINT[0] == (qual, anchor, k) or (isinstance(ABLATE_HINT[0], (set, frozenset)) and (qual, anchor, k) in ABLATE_HINT[0])):
             # tools/hint_deps.py: build the unit as if this hint could not be placed (to learn which clauses need it)
             rep.append(("ABLATED", f"proof-hint anchor {anchor!r} #{k}: left out on request"))
